@@ -309,3 +309,42 @@ Proof.
     + exact IH.
     + exact IH.
 Qed.
+
+(* ------------------------------------------------------------------ *)
+(* CONNECT as seen by an upstream proxy: the connect rules are applied twice
+   (see Model.connect_upstream_view).                                       *)
+
+Lemma overlay_get over : forall base k,
+  raw_get k (overlay base over) =
+  match raw_get k (rev over) with Some vs => Some vs | None => raw_get k base end.
+Proof.
+  unfold overlay. induction over as [|[k' vs] over IH]; intros base k; cbn [fold_left rev fst snd].
+  - reflexivity.
+  - rewrite IH.
+    assert (Hsplit : raw_get k (rev over ++ [(k', vs)]) =
+            match raw_get k (rev over) with Some x => Some x
+            | None => if str_eqb k k' then Some vs else None end).
+    { generalize (rev over). intro l. induction l as [|[k2 v2] l IHl]; simpl.
+      - reflexivity.
+      - destruct (str_eqb k k2); [reflexivity | exact IHl]. }
+    rewrite Hsplit. destruct (raw_get k (rev over)); [reflexivity|].
+    destruct (str_eqb k k') eqn:E.
+    + apply str_eqb_eq in E. subst. apply raw_get_set_same.
+    + apply raw_get_set_other. apply str_eqb_neq. exact E.
+Qed.
+
+Lemma raw_get_rev_none k l : raw_get k l = None -> raw_get k (rev l) = None.
+Proof.
+  rewrite !raw_get_none_notin. intros H Hin. apply H.
+  unfold keys in *. rewrite map_rev in Hin. apply in_rev. exact Hin.
+Qed.
+
+(* the strongest true statement: keys the second application does not bind are
+   exactly what the rules applied once give *)
+Lemma connect_view_partial cfg h k :
+  raw_get k (apply_rules (connect_rules cfg) []) = None ->
+  raw_get k (connect_upstream_view cfg h) = raw_get k (dispatch cfg ReqConnect h).
+Proof.
+  intro H. unfold connect_upstream_view. rewrite overlay_get.
+  rewrite (raw_get_rev_none _ _ H). reflexivity.
+Qed.
